@@ -6,18 +6,19 @@ import (
 
 // ---------- small constructors ----------
 
-func req(m int) Action   { return Action{A: "require", M: m} }
-func preq(m int) Action  { return Action{A: "prequire", M: m} }
-func setl(e VExp) Action { return Action{A: "setloaded", E: &e} }
-func ret(e VExp) Action  { return Action{A: "return", E: &e} }
-func retNothing() Action { return Action{A: "returnnothing"} }
-func fail() Action       { return Action{A: "fail"} }
-func module() Action     { return Action{A: "module"} }
-func eNil() VExp         { return VExp{K: "nil"} }
-func eFalse() VExp       { return VExp{K: "false"} }
-func eTrue() VExp        { return VExp{K: "true"} }
-func eStr(k int) VExp    { return VExp{K: "str", N: k} }
-func eTab(k int) VExp    { return VExp{K: "tab", N: k} }
+func req(m int) Action     { return Action{A: "require", M: m} }
+func preq(m int) Action    { return Action{A: "prequire", M: m} }
+func setl(e VExp) Action   { return Action{A: "setloaded", E: &e} }
+func ret(e VExp) Action    { return Action{A: "return", E: &e} }
+func retNothing() Action   { return Action{A: "returnnothing"} }
+func fail() Action         { return Action{A: "fail"} }
+func module() Action       { return Action{A: "module"} }
+func moduleSeeAll() Action { return Action{A: "module", SeeAll: true} }
+func eNil() VExp           { return VExp{K: "nil"} }
+func eFalse() VExp         { return VExp{K: "false"} }
+func eTrue() VExp          { return VExp{K: "true"} }
+func eStr(k int) VExp      { return VExp{K: "str", N: k} }
+func eTab(k int) VExp      { return VExp{K: "tab", N: k} }
 func sc(a ...Action) []Action {
 	if a == nil {
 		return []Action{}
@@ -90,6 +91,10 @@ func corpus(w *lib.Writer, env *envT) {
 		{hReq(4), hPath(3, 1), hReq(4), hPre(4, "lua", sc(ret(eTab(0)))), hReq(4), hReq(4)},
 		{hReq(0), hReq(2), hPath(2), hReq(1), hPath(1, 1, 0), hReq(3), hFile(0, 0, sc()), hReq(0)},
 		{hPre(0, "lua", sc(setl(eStr(0)), fail())), hReq(0), hReq(0)},
+		// hunt obs-3: package.seeall on a module table with a protected metatable (t1)
+		{hPre(0, "lua", sc(setl(eTab(1)), moduleSeeAll())), hReq(0), hGetL(0), hReq(0), hGetG(0)},
+		{hFile(0, 0, sc(setl(eTab(0)), moduleSeeAll(), ret(eNil()))), hReq(0), hReq(0)},
+		{hPre(0, "lua", sc(moduleSeeAll(), moduleSeeAll())), hReq(0), hGetG(0), hReq(0)},
 		// module() and host registration, conflicts
 		{hPre(0, "lua", sc(module())), hReq(0), hGetG(0), hGetL(0), hReq(0)},
 		{hPre(2, "lua", sc(module())), hReq(2), hGetG(2), hReq(2)},
@@ -261,7 +266,11 @@ func randScript(r *lib.Rand, nnames int) []Action {
 			case 2:
 				s = append(s, setl(randVExp(r, true)))
 			case 3:
-				s = append(s, module())
+				if r.Bool() {
+					s = append(s, moduleSeeAll())
+				} else {
+					s = append(s, module())
+				}
 			case 4:
 				s = append(s, ret(randVExp(r, true)))
 			case 5:
@@ -390,6 +399,15 @@ func corpusInit(w *lib.Writer, env *envT) {
 		{Init: []IOp{iReg(idString, 1), iLib(idString), iReg(idPkg, 2), iPkg(), iBase(), iReg(idPkg, 3)},
 			Ops: []Op{hReq(idString), hReq(idPkg), hReg(idString, 0), hReq(idString)}},
 	}
+	// hunt obs-1: a script assigns the global `package`; require, package.preload and PreloadModule
+	// must keep working (Lua 5.1: the searchers use the package table as their environment)
+	cs = append(cs,
+		in{Init: []IOp{iBase(), iPkg(), iPre(0, "go", sc(ret(eStr(0))))},
+			Ops: []Op{hSetG(idPkg, "str", 0), hReq(0), hReq(1), hPre(1, "go", sc(ret(eTab(0)))), hReq(1), hGetG(idPkg), hReq(idPkg)}},
+		in{Init: []IOp{iPkg(), iBase()},
+			Ops: []Op{hPre(0, "lua", sc(req(1), ret(eTab(0)))), hFile(1, 1, sc(ret(eStr(1)))), hSetG(idPkg, "nil", 0), hReq(0), hReq(2),
+				hPre(2, "lua", sc()), hReq(2), hGetL(1), hReq(idPkg), hReg(idPkg, 1)}},
+	)
 	for _, c := range cs {
 		runCase(w, env, c)
 	}
@@ -439,6 +457,9 @@ func genInit(w *lib.Writer, env *envT, r *lib.Rand, tier string) {
 		for _, m := range registered {
 			ops = append(ops, hReq(m), hGetG(m))
 		}
+		if cr.Chance(30) {
+			ops = append(ops, hSetG(idPkg, []string{"nil", "str", "tab"}[cr.Intn(3)], cr.Intn(2)))
+		}
 		for j := cr.Range(2, 6); j > 0; j-- {
 			m := cr.Intn(4)
 			switch cr.Pick(5, 2, 2, 2, 2, 1) {
@@ -447,7 +468,7 @@ func genInit(w *lib.Writer, env *envT, r *lib.Rand, tier string) {
 			case 1:
 				ops = append(ops, hGetL(registered[cr.Intn(len(registered))]))
 			case 2:
-				ops = append(ops, hPre(m, "lua", randScript(cr, 4)))
+				ops = append(ops, hPre(m, []string{"lua", "go"}[cr.Intn(2)], randScript(cr, 4)))
 			case 3:
 				ops = append(ops, hReg(registered[cr.Intn(len(registered))], cr.Intn(4)))
 			case 4:
